@@ -12,7 +12,7 @@
       live s = slots [Beff, Teff)       inflight s = slots already claimed, not yet read *)
 From Coq Require Import ZArith List Permutation.
 From MT Require Import Lib.Interleave Wsq.WsqModel Wsq.WsqLists Wsq.WsqInv Wsq.WsqProofs
-                       Wsq.TsoModel Wsq.TsoProofs.
+                       Wsq.WsqRefine Wsq.TsoModel Wsq.TsoProofs Wsq.TsoLock.
 Import ListNotations.
 Local Open Scope Z_scope.
 
@@ -36,10 +36,6 @@ Print Assumptions C02_inv_every_schedule.
 
 (** a non-trivial reachable state: capacity 4, two thieves; two pushes, then a pop and a take
     race for the items while the second thief passes an item in *)
-Definition ex_sched : list actor :=
-  do_push 1 ++ do_push 2 ++
-  [(O, CallO Pop); (1%nat, CallT Take); (O, Tick); (1%nat, Tick); (O, Tick); (1%nat, Tick);
-   (O, Tick); (1%nat, Tick); (2%nat, CallT (Pass 7)); (1%nat, Tick); (O, Tick); (1%nat, Tick)].
 Example C02_inv_example :
   let s := run step ex_sched (init_state 4 2) in
   own s = OPopLock 3 /\ nth_error (thv s) 0 = Some (TSlot MTake 2) /\
@@ -79,6 +75,25 @@ Example C02_declined_example :
   nth_error (thv s') 0 = Some (TDone 0) /\ mm s' = mm s /\
   (* ... and the same candidate is handed out when the callback accepts *)
   nth_error (thv (run step (solo 0 (WTake true) 7) s)) 0 = Some (TDone 1).
+Proof. vm_compute. repeat split; reflexivity. Qed.
+
+(** ** The wsapi peek (refill of the steal-hint cache with the take-and-roll-back idiom, then the
+    seqlock read) leaves top, base, every slot and the lock as they were *)
+Theorem C02_peek_harmless : forall s i k r,
+  aborted s = false -> nth_error (thv s) i = Some TIdle ->
+  let s' := run step (solo i WPeek k) s in
+  nth_error (thv s') i = Some (TDone r) ->
+  top (mm s') = top (mm s) /\ base (mm s') = base (mm s) /\ ptr (mm s') = ptr (mm s) /\
+  lck (mm s') = lck (mm s) /\ pushed s' = pushed s /\ returned s' = returned s /\
+  own s' = own s /\ (forall j, j <> i -> nth_error (thv s') j = nth_error (thv s) j).
+Proof. exact peek_harmless. Qed.
+Print Assumptions C02_peek_harmless.
+
+Example C02_peek_example :
+  let s := run step (do_push 1 ++ do_push 2) (init_state 4 2) in
+  let s' := run step (solo 0 WPeek 9) s in
+  nth_error (thv s') 0 = Some (TDone 1) /\ wptr (mm s') = 1 /\ wseq (mm s') = 2 /\
+  base (mm s') = base (mm s).
 Proof. vm_compute. repeat split; reflexivity. Qed.
 
 (** ** Re-centring (push at the upper boundary, put at the lower one) keeps content and
@@ -131,6 +146,37 @@ Example C02_solo_take_example :
   nth_error (thv (run step (solo 1 Take 7) s)) 1 = Some (TDone 1).
 Proof. vm_compute. repeat split; reflexivity. Qed.
 
+(** ** Refinement: every step of the fine-grained deque is a stutter or exactly one operation
+    of an atomic deque ([live s], base end first): push / put / trypass commit at their store to
+    top / base, pop at the decision after reading base (lock-free) or inside the locked region,
+    take when it reads top; a declined wsapi take puts its candidate back at the base end.
+    This licenses treating one deque operation as one step in the scheduler-level machine. *)
+Theorem C02_refines_deque : forall s a s',
+  reachable init step s -> step s a = Some s' ->
+  dq_step (live s) (step_event s a) (live s').
+Proof. exact refines_deque. Qed.
+Print Assumptions C02_refines_deque.
+
+(** ... and the slot an operation has claimed is not overwritten before the operation reads it:
+    the value handed to the caller is the one removed from [live] at the commit point *)
+Theorem C02_claim_stable : forall s a s',
+  reachable init step s -> step s a = Some s' ->
+  (forall t, own s = OPopFast t -> own s' = OPopFast t ->
+             znth (ptr (mm s')) t = znth (ptr (mm s)) t) /\
+  (forall i m b, nth_error (thv s) i = Some (TSlot m b) -> nth_error (thv s') i = Some (TSlot m b) ->
+             znth (ptr (mm s')) b = znth (ptr (mm s)) b).
+Proof. exact claim_stable. Qed.
+Print Assumptions C02_claim_stable.
+
+(** in the example state the owner is about to enter its locked region with [live = [2]]:
+    the next two owner steps are a stutter (lock held by the thief: disabled) ... *)
+Example C02_refines_example :
+  let s := run step (do_push 1 ++ do_push 2 ++ do_push 3 ++
+                     [(O, CallO Pop); (O, Tick); (O, Tick); (O, Tick)]) (init_state 8 1) in
+  own s = OPopReadBase 6 /\ live s = [1; 2; 3] /\ step_event s (O, Tick) = DPopTop 3 /\
+  match step s (O, Tick) with Some s' => live s' = [1; 2] /\ inflight s' = [3] | None => False end.
+Proof. vm_compute. repeat split; reflexivity. Qed.
+
 (** ** x86-TSO *)
 
 (** with pop's rwbarrier only a compiler barrier the model exhibits the failure: owner and
@@ -151,6 +197,36 @@ Theorem C02_tso_fence_blocks_witness :
   returned (sc s) = [1; 2; 3] /\ own (sc s) = OPopReadBase 6 /\ obuf s = [WTop 6].
 Proof. exact tso_fence_blocks_witness. Qed.
 Print Assumptions C02_tso_fence_blocks_witness.
+
+(** the two memory models run the same program: from drained buffers, a TSO program step followed
+    by draining the stepper's buffer is the SC step (so every SC behaviour is a TSO behaviour) *)
+Theorem C02_tso_contains_sc_owner : forall t s s1 e,
+  drained s -> tso_step t s (O, Do e) = Some s1 ->
+  step (sc s) (O, e) = Some (with_mem (sc s1) (apply_wrs (mm (sc s1)) (obuf s1))) /\ tbufs s1 = tbufs s.
+Proof. exact tso_owner_step_sc. Qed.
+Print Assumptions C02_tso_contains_sc_owner.
+
+Theorem C02_tso_contains_sc_thief : forall t s s1 i,
+  drained s -> tso_step t s (S i, Do Tick) = Some s1 ->
+  exists buf1, nth_error (tbufs s1) i = Some buf1 /\
+  step (sc s) (S i, Tick) = Some (with_mem (sc s1) (apply_wrs (mm (sc s1)) buf1)) /\ obuf s1 = obuf s.
+Proof. exact tso_thief_tick_sc. Qed.
+Print Assumptions C02_tso_contains_sc_thief.
+
+(** PARTIAL TSO invariant.  Full statement (not proved): for every table accepted by
+    [fence_table_ok], every TSO-reachable state satisfies the conservation clauses of
+    [C02_inv_reachable] (with top / base read through the owner's / thief's youngest buffered
+    store).  Proved: its lock-discipline clause, for EVERY fence table - the regions under
+    q->lock exclude each other although the unlock is a plain, bufferable store. *)
+Theorem C02_tso_lock_partial : forall t s, reachable tso_initial (tso_step t) s ->
+  0 <= holders (sc s) <= 1 /\
+  (lck (mm (sc s)) = 0 \/ lck (mm (sc s)) = 1) /\
+  (holders (sc s) = 1 -> lck (mm (sc s)) = 1) /\
+  (forall i j pi pj, nth_error (thv (sc s)) i = Some pi -> nth_error (thv (sc s)) j = Some pj ->
+     holds_t pi = true -> holds_t pj = true -> i = j) /\
+  (forall i pi, holds_o (own (sc s)) = true -> nth_error (thv (sc s)) i = Some pi -> holds_t pi = false).
+Proof. exact tso_lock_excl. Qed.
+Print Assumptions C02_tso_lock_partial.
 
 (** litmus: store -> full fence -> load on two words: never both loads stale (all executions) *)
 Theorem C02_tso_sb_fenced : forall s, lreach (linit (sb_prog Full)) s -> lfinal s = true ->
